@@ -22,7 +22,7 @@ def _summary(net):
             "m": {m: enc.arr(getattr(net, m)()) for m in MEASURES}}
 
 
-def _make(kind, S, directed, **kw):
+def _make(kind, S, directed, own=None, **kw):
     """kind "plain": ClimateNetwork on the 3/4-node grid (nodes 1 and 2 are ~1.4 degrees apart, all other pairs
     >= 30 degrees); kind "ccn": CoupledClimateNetwork with two 2-node layers on the equator, longitudes
     (0, 40) and (41, 80): nodes 2 and 3 are 1 degree apart, all other pairs >= 39 degrees."""
@@ -31,8 +31,10 @@ def _make(kind, S, directed, **kw):
     if kind == "ccn":
         g1 = GeoGrid(np.arange(4.0), np.array([0.0, 0.0]), np.array([0.0, 40.0]), silence_level=3)
         g2 = GeoGrid(np.arange(4.0), np.array([0.0, 0.0]), np.array([41.0, 80.0]), silence_level=3)
-        return CoupledClimateNetwork(g1, g2, S.copy(), directed=bool(directed), silence_level=3, **kw)
-    return ClimateNetwork(_grid(len(S)), S.copy(), directed=bool(directed), silence_level=3, **kw)
+        return CoupledClimateNetwork(g1, g2, S.copy() if own is None else own, directed=bool(directed),
+                                     silence_level=3, **kw)
+    return ClimateNetwork(_grid(len(S)), S.copy() if own is None else own, directed=bool(directed),
+                          silence_level=3, **kw)
 
 
 def _observe(net, S, directed, kind="plain"):
@@ -55,8 +57,12 @@ def run_case(c):
     ct = c["ctor"]
     kw = {ct["by"]: ct["n"] / ct["d"]}
     events = [{"op": "construct", "by": ct["by"], "n": ct["n"], "d": ct["d"], "nl": ct["nl"]}]
+    # the caller's own matrix: a buffer that is reused (overwritten) once the network has been constructed -
+    # the network keeps ITS similarity matrix for the later set_threshold / set_link_density / set_non_local
+    buf = np.array(S, copy=True)
     try:
-        net = _make(kind, S, c["directed"], non_local=bool(ct["nl"]), **kw)
+        net = _make(kind, S, c["directed"], own=buf, non_local=bool(ct["nl"]), **kw)
+        buf[...] = 0
     except Exception as ex:
         events.append({"op": "observe", "obs": {"exc": "init:" + type(ex).__name__, "twin": {}}})
         rec = dict(c)
